@@ -4,7 +4,7 @@
     model and the specification, never a proof file. *)
 From Coq Require Import String.
 From Coq Require Import List Ascii ZArith Bool.
-From CGV Require Import Base.PyBase Base.PyVal Dialect.DialectImpl Frag.NDict Frag.StripImpl Frag.FragText Frag.SmilesParse.
+From CGV Require Import Base.PyBase Base.PyVal Dialect.DialectImpl Frag.NDict Frag.StripImpl Frag.FragText Frag.SmilesParse Frag.Template.
 Import ListNotations.
 
 (** what the implementation did: the class name of the exception, or the four returned values *)
@@ -56,7 +56,24 @@ Definition ezkeys_eqb (a b : list (option nat * ascii)) : bool :=
 Fixpoint attrs_list_eqb (a b : list attrs) : bool :=
   match a, b with [], [] => true | x :: a', y :: b' => attrs_eqb x y && attrs_list_eqb a' b' | _, _ => false end.
 
+(** the final template of fragment_iter, restricted to what Template.v models: the attributes of the
+    atoms written in the text except hcount / rs_isomer (rewritten by the hydrogen completion and the
+    stereo post-processing), and the bonds between them with their orders *)
+Definition drop_keys (a : attrs) : attrs :=
+  filter (fun kv => negb (str_eqb (fst kv) (S "hcount") || str_eqb (fst kv) (S "rs_isomer"))) a.
+Definition tmpl_obs := (list (nat * attrs) * list (nat * nat * pyval))%type.
+Definition template_agrees (T : tmpl) (o : tmpl_obs) : bool :=
+  let '(nodes, edges) := o in
+  let present := map fst nodes in
+  let here (i : nat) := existsb (Nat.eqb i) present in
+  forallb (fun ia => match nth_error (t_nodes T) (fst ia) with
+                     | Some m => attrs_eqb (drop_keys m) (snd ia)
+                     | None => false
+                     end) nodes &&
+  edges_eqb pyval_eqb (filter (fun e => let '(u, v, _) := e in here u && here v) (t_edges T)) edges.
+
 Inductive case :=
+| CTemplate (name text : pystr) (fo : list (pystr * option pystr)) (impl : option tmpl_obs)
 | CSmiles (text : pystr) (base : sobs_base) (full : sobs_full)
 | CStrip (text : pystr) (fo : list (pystr * option pystr)) (judge : bool) (toks : list tok) (dc : decor) (impl : obs)
 | CRing (rest : pystr) (token : ascii) (nc : nat) (impl : ring_obs)
@@ -64,6 +81,11 @@ Inductive case :=
 
 Definition corr_ok (c : case) : bool :=
   match c with
+  | CTemplate name text fo impl =>
+      match impl with
+      | None => true            (* the implementation raised after the modelled stage: no claim *)
+      | Some o => match fragment_template (fo_of_table fo) name text with Ok T => template_agrees T o | Err _ => false end
+      end
   | CSmiles text base full =>
       (match base_smiles_parser text, base with
        | Ok (atoms, edges, ez), SBOk (atoms', edges', ez') =>
